@@ -133,6 +133,12 @@ def grid_cases():
         for lo, hi in [(nn[0], nn[-1]), (nn[1], nn[2]), (nn[2], nn[2])]:
             items.append([f"cl{len(items)}", ["fn", "clip", [["col", {"c": "c0"}], ["lit", enc(lo)], ["lit", enc(hi)]], {}]])
         yield f"clip:{f}", {"tables": [tb], "steps": [S0, {"out": "v1", "verb": "mutate", "in": "v0", "items": items}], "result": "v1"}, len(items) * len(GRID[f])
+    # an integer column clipped with float bounds, and with one float and one integer bound (the result is a Float)
+    tb = _table(["int"], [(v,) for v in GRID["int"]])
+    items = [[f"cm{k}", ["fn", "clip", [["col", {"c": "c0"}], ["lit", lo], ["lit", hi]], {}]]
+             for k, (lo, hi) in enumerate([(-1.5, 2.5), (-1.5, 2), (-2, 2.5), (0.25, 0.75), (-100.5, 100)])]
+    yield "clip:int-mixed-bounds", {"tables": [tb], "steps": [S0, {"out": "v1", "verb": "mutate", "in": "v0", "items": items}],
+                                    "result": "v1"}, len(items) * len(GRID["int"])
     for f in NUM:
         vals = GRID[f] + ([1.234, -1.236, 12.5, 0.125] if f == "float" else [15, -15, 149])
         tb = _table([f], [(v,) for v in vals])
